@@ -40,4 +40,4 @@ def run_case(case, rec):
         rec.cls("shape:" + c)
     with common.scratch("c05") as d:
         res, req = G.generate_checked(api, options, d, rec, ID)
-        G.run_exerciser(ID, api, options, dict(case["inner"]), res, req, d, rec)
+        G.run_exerciser(ID, api, options, dict(case["inner"]), res, req, d, rec, prefer_unknown=True)
